@@ -93,6 +93,60 @@ Theorem c14_all_switch_combinations :
 Proof. exact switches_factor. Qed.
 
 
+(* ---- the setters themselves (Model/Config.v, run against the real ModuleConfig; source assignments pinned): the final value of
+   a switch depends only on the calls of its own setter, in whatever order the setters are called; Clone keeps the switches *)
+From WV Require Import Model.Config Gen.ConfigEmit Proofs.Config.
+Theorem c14_name_switch_independent :
+  forall (l : list setter) (c : mcfg),
+         c_skip_names (run_setters c l) = c_skip_names (run_setters c (filter own_names l)).
+Proof. exact switch_names_independent. Qed.
+
+Theorem c14_producers_switch_independent :
+  forall (l : list setter) (c : mcfg),
+         c_skip_prod (run_setters c l) = c_skip_prod (run_setters c (filter own_prod l)).
+Proof. exact switch_producers_independent. Qed.
+
+Theorem c14_dwarf_switch_independent :
+  forall (l : list setter) (c : mcfg),
+         c_dwarf (run_setters c l) = c_dwarf (run_setters c (filter own_dwarf l)).
+Proof. exact switch_dwarf_independent. Qed.
+
+Theorem c14_preserve_switch_independent :
+  forall (l : list setter) (c : mcfg),
+         c_preserve (run_setters c l) = c_preserve (run_setters c (filter own_preserve l)).
+Proof. exact switch_preserve_independent. Qed.
+
+Theorem c14_synthetic_switch_independent :
+  forall (l : list setter) (c : mcfg),
+         c_synth (run_setters c l) = c_synth (run_setters c (filter own_synth l)).
+Proof. exact switch_synth_independent. Qed.
+
+Theorem c14_stable_switch_independent :
+  forall (l : list setter) (c : mcfg),
+         c_stable (run_setters c l) = c_stable (run_setters c (filter own_stable l)).
+Proof. exact switch_stable_independent. Qed.
+
+Theorem c14_name_switch_last_call :
+  forall (l : list setter) (c : mcfg),
+         c_skip_names (run_setters c l) = last_arg arg_names l (c_skip_names c).
+Proof. exact switch_names_last_call. Qed.
+
+Theorem c14_producers_switch_last_call :
+  forall (l : list setter) (c : mcfg),
+         c_skip_prod (run_setters c l) = last_arg arg_prod l (c_skip_prod c).
+Proof. exact switch_producers_last_call. Qed.
+
+Theorem c14_clone_keeps_switches :
+  forall c : mcfg,
+         firstn 7 (cfg_bits (apply_setter c SClone)) = firstn 7 (cfg_bits c) /\
+         c_on_parse (apply_setter c SClone) = false /\ c_on_instr_loc (apply_setter c SClone) = false.
+Proof. exact clone_keeps_switches. Qed.
+
+Theorem c14_config_source_pinned :
+  config_setters = expected_config_setters /\ emit_wasm_skeleton = expected_emit_wasm_skeleton.
+Proof. exact config_source_pinned. Qed.
+
+
 Print Assumptions c14_name.
 Print Assumptions c14_producers.
 Print Assumptions c14_processed_by_once.
@@ -103,3 +157,13 @@ Print Assumptions c14_dwarf_switch_off.
 Print Assumptions c14_dwarf_off_no_debug_section.
 Print Assumptions c14_dwarf_switch_on.
 Print Assumptions c14_all_switch_combinations.
+Print Assumptions c14_name_switch_independent.
+Print Assumptions c14_producers_switch_independent.
+Print Assumptions c14_dwarf_switch_independent.
+Print Assumptions c14_preserve_switch_independent.
+Print Assumptions c14_synthetic_switch_independent.
+Print Assumptions c14_stable_switch_independent.
+Print Assumptions c14_name_switch_last_call.
+Print Assumptions c14_producers_switch_last_call.
+Print Assumptions c14_clone_keeps_switches.
+Print Assumptions c14_config_source_pinned.
